@@ -10,7 +10,8 @@ Inductive case :=
                                                           raw_same: the two documents agree to the letter, library texts included *)
 | PRetry (c : rcase) (other : robs)
 | PSeven (c : C07.case) (other : c7obs)
-| PEight (c : C08.case) (other : cres json).
+| PEight (c : C08.case) (other : cres json)
+| PRaw (a b : json).       (* situations no model covers (user-supplied hooks that raise): what the two halves did, compared with each other only *)
 
 Definition with_dobs (c : dcase) (o : dobs) : dcase := let '(d, l, ctx, _) := c in (d, l, ctx, o).
 Definition with_robs (c : rcase) (o : robs) : rcase :=
@@ -36,6 +37,7 @@ Definition check (c : case) : nat :=
   | PEight ec other =>
       verdict (negb (cres_eqb json_equiv (eight_model ec) (eight_obs ec)) || negb (cres_eqb json_equiv (eight_model ec) other))
               (negb (cres_eqb json_equiv (eight_obs ec) other)) true 0
+  | PRaw a b => verdict false (negb (json_equiv a b)) true 0
   end.
 Definition run (cs : list case) : list nat := map check cs.
 Definition show (c : case) :=
@@ -44,4 +46,5 @@ Definition show (c : case) :=
   | PRetry rc _ => (None, Some (RetryCommon.model rc), None, None)
   | PSeven sc _ => (None, None, Some (seven_model sc), None)
   | PEight ec _ => (None, None, None, Some (eight_model ec))
+  | PRaw _ _ => (None, None, None, None)
   end.
